@@ -13,16 +13,25 @@ PRELOAD_NETWORK_ORDERS = [["btc", "xtn", "ltc", "bch", "grs", "doge", "dash", "b
 LEVEL = "exploration"
 TECHNIQUE = "offline checker over recorded signing histories: after every tx.sign / sign_tx step the real transaction is re-validated by pycoin and by the reference interpreter, signatures are checked for canonical form, and a field-level frame snapshot is compared"
 RULE = ("signing histories: a transaction of 1-5 inputs over the standard puzzle kinds (P2PK, P2PKH, P2WPKH, P2SH-P2WPKH, bare/P2SH/P2WSH/P2SH-P2WSH "
-        "m-of-n with every 1<=m<=n<=4 plus n=7,15 under P2SH and n=16,20 under P2WSH, m up to 12), compressed/uncompressed keys, hash types "
-        "ALL/NONE/SINGLE x ANYONECANPAY, key supply by dict lookup / WIF list / Keychain with BIP32 paths, signed all at once, in two passes, "
-        "restricted to an index set, or one multisig key at a time in a chosen order, with wrong or too few keys mixed in; on BTC, XTN, LTC, BCH, "
-        "BTG, GRS, DOGE, DASH and a rotating sample of the other networks. Distinct by (network, puzzle kinds, key form, hash type, supply, order).")
+        "m-of-n with every 1<=m<=n<=4 plus 5<=n<=20 for bare / P2WSH / P2SH-P2WSH and 5<=n<=15 under P2SH (mixed key forms up to the 520-byte "
+        "redeem script), every 1<=m<=n biased to 1, 2, 13, n-1, n), compressed/uncompressed keys, hash types ALL/NONE/SINGLE x ANYONECANPAY "
+        "(with the fork-id bit pre-set or not on fork-id coins), possibly changing from one pass to the next, key supply by dict lookup / WIF list "
+        "(either compression flag) / Keychain / Keychain with BIP32 paths, signed all at once, in two passes, restricted to an index set, one "
+        "multisig key at a time in a chosen order (then a closing pass with exactly the missing number of keys, the largest multisig receiving "
+        "its last key alone), signed-edited-signed again, with wrong or too few keys; on BTC, XTN, LTC, BCH, BTG, GRS, DOGE, DASH and, walking "
+        "shard by shard, every other registered network. Distinct by (network, puzzle kinds, key form, hash type, supply, order). Every puzzle "
+        "kind, supply mechanism, hash-type byte, network and partial-signing situation has a required evidence counter.")
 ASSUMPTIONS = [
     "standard policy flag set = all 16 verification flags pycoin defines (on fork-id coins without STRICTENC, as the statement prescribes)",
     "validity is decided twice: by pycoin's own is_solution_ok under that flag set and by the reference interpreter (vmon/refs/script.py) on the "
     "bytes pycoin produced; for BCH/BTG the reference uses the BIP143 digest with the fork id folded in for every signature and requires the 0x40 bit",
     "puzzle scripts are built by the harness from the templates' byte definitions, not by pycoin's contract API",
-    "an input is 'asked for' when its index is in tx_in_idx_set (default: all); inputs already valid before a pass must come out byte-identical",
+    "an input is 'asked for' when its index is in tx_in_idx_set (default: all); inputs already valid before a pass must come out byte-identical "
+    "(after an edit of the transaction, 'already valid' is the reference interpreter's verdict, not pycoin's)",
+    "no hash type requested = SIGHASH_ALL; when the request changes between passes every signature must carry the type of one of the passes "
+    "that could have signed its input",
+    "pycoin's verdict is read by truthiness; an exception from tx.sign / sign_tx is a violation only when it leaves an input invalid although "
+    "its keys were supplied (mechanism sign.raises.<type>), not when nothing was solvable",
     "hierarchical-keychain histories use compressed keys only (BIP32 keys are compressed by definition; Keychain.add_key_paths indexes the "
     "compressed hash160); they keep ONE keychain for the whole history, register public paths first and add cosigner secrets pass by pass",
 ]
@@ -128,23 +137,27 @@ def make_puzzle(rng, keys, kind, nkeys_total, amount, force_compressed=False):
             return Puzzle(kind, prog, [], [ki], None, [comp], amount)
         return Puzzle(kind, b"\xa9\x14" + hash160(prog) + b"\x87", [prog], [ki], None, [comp], amount)
     wrapper = kind.split(":")[1]
-    limit = {"bare": 4, "p2sh": 15, "p2wsh": 20, "p2sh-p2wsh": 20}[wrapper]
-    r = rng.random()
-    if r < 0.7:
+    # n up to 20 wherever the script-size limit allows it: 520-byte redeem script under P2SH (15 compressed keys), 10,000-byte
+    # witness script under P2WSH, 10,000-byte script for a bare puzzle
+    limit = {"bare": 20, "p2sh": 15, "p2wsh": 20, "p2sh-p2wsh": 20}[wrapper]
+    if rng.random() < 0.68:
         n = rng.randrange(1, 5)
-    elif wrapper == "p2sh":
-        n = rng.choice([7, 15])
-    elif wrapper in ("p2wsh", "p2sh-p2wsh"):
-        n = rng.choice([7, 15, 16, 20])
     else:
-        n = rng.randrange(1, 5)
-    n = min(n, limit)
-    m = rng.randrange(1, min(n, 12) + 1) if n > 4 else rng.randrange(1, n + 1)
-    if n > 4 and rng.random() < 0.5:
-        m = rng.choice([1, 2, min(n, 9), min(n, 10), min(n, 11), min(n, 12)])
-    idx = [i % nkeys_total for i in rng.sample(range(max(n, nkeys_total)), n)] if n <= nkeys_total else list(range(n))
+        n = min(limit, rng.choice([limit, limit, 7, 9, 11, 16, 17, rng.randrange(5, limit + 1)]))
+    if n <= 4:
+        m = rng.randrange(1, n + 1)
+    else:
+        # every 1 <= m <= n, biased to the ends and to the first m past the old 12-signature cap
+        m = rng.choice([1, 2, n, n, n - 1, min(n, 13), rng.randrange(1, n + 1), rng.randrange(1, n + 1)])
+    idx = rng.sample(range(nkeys_total), n)
     witness_kind = wrapper in ("p2wsh", "p2sh-p2wsh")
-    comp = [True if (witness_kind or force_compressed or wrapper == "p2sh" and n > 7) else rng.random() < 0.8 for _ in idx]
+    comp = [True if (witness_kind or force_compressed) else rng.random() < 0.8 for _ in idx]
+    if wrapper == "p2sh":
+        # mixed key forms right up to the 520-byte limit: turn uncompressed keys into compressed ones until the script fits
+        def size(cs):
+            return len(G.num(m)) + sum(34 if c else 66 for c in cs) + len(G.num(n)) + 1
+        while size(comp) > 520:
+            comp[comp.index(False)] = True
     pubs = [keys.sec(i, c) for i, c in zip(idx, comp)]
     script = G.num(m) + b"".join(push(p) for p in pubs) + G.num(n) + b"\xae"
     if wrapper == "bare":
@@ -185,6 +198,9 @@ class History:
             # the caller may already include the fork-id bit in the requested type
             self.hash_type = rng.choice([0x41, 0x42, 0x43, 0xc1, 0xc2, 0xc3])
         self.signed_keys = [set() for _ in self.puzzles]     # key indices that have signed each input so far
+        self.req_types = [set() for _ in self.puzzles]       # hash-type bytes requested in the passes that could sign each input
+        self.sign_seq = [[] for _ in self.puzzles]           # listed positions in the order their keys arrived
+        self.last_raise = None
 
     # -- observation ---------------------------------------------------------------------------------
     def frame(self):
@@ -208,8 +224,9 @@ class History:
         sc = self.tx.SolutionChecker(self.tx)
         out = {}
         for i in order:
+            ctx = sc.tx_context_for_idx(i)
             try:
-                sc.check_solution(sc.tx_context_for_idx(i), flags=flags)
+                sc.check_solution(ctx, flags=flags)
                 out[i] = True
             except ScriptError:
                 out[i] = False
@@ -224,9 +241,16 @@ class History:
         out = []
         n = len(self.puzzles)
         if n > 1:
-            fresh = [observe(self.tx.is_solution_ok, i, flags=self.flags)[1] for i in range(n)]
-            for order in (list(range(n)), list(range(n - 1, -1, -1))):
-                shared = self.shared_checker_verdicts(self.flags, order)
+            # (the statement speaks of is_solution_ok / bad_solution_count; the shared instance is the arrangement Solver.sign
+            # itself uses. When that entry point cannot be driven the way this harness spells it, the probe is skipped.)
+            fresh = [self.truth(*observe(self.tx.is_solution_ok, i, flags=self.flags)) for i in range(n)]
+            # forward and backward order alternate from one step to the next
+            self.n_steps = getattr(self, "n_steps", 0) + 1
+            for order in (list(range(n)) if self.n_steps % 2 else list(range(n - 1, -1, -1)),):
+                st, shared = observe(self.shared_checker_verdicts, self.flags, order)
+                if st != "ok":
+                    self.rec.ev("shared_checker.entry_point_unavailable")
+                    break
                 if shared != fresh:
                     self.rec.violation("validity.shared_checker_instance_differs", self.case({"order": order}), shared, fresh)
         for i, p in enumerate(self.puzzles):
@@ -235,12 +259,30 @@ class History:
             chk = ForkChecker(ref_tx, i, p.amount, self.fork)
             ti = ref_tx["ins"][i]
             r = RS.result_of(RS.verify_script, ti["script"], p.spk, ti["witness"], self.flags, chk)
-            out.append((ok if st == "ok" else "EXC:%s" % type(ok).__name__, r))
+            out.append((self.truth(st, ok), r))
         return out
 
+    @staticmethod
+    def truth(st, value):
+        """pycoin's verdict as the statement reads it: any truthy return is 'valid', any falsy one 'not valid'; an exception
+        escaping from validation is kept apart"""
+        return bool(value) if st == "ok" else "EXC:%s" % type(value).__name__
+
+    def ref_verdict(self, i, ref_tx=None):
+        ref_tx = ref_tx or self.as_ref_tx()
+        p = self.puzzles[i]
+        ti = ref_tx["ins"][i]
+        return RS.result_of(RS.verify_script, ti["script"], p.spk, ti["witness"], self.flags, ForkChecker(ref_tx, i, p.amount, self.fork))
+
+    def want_ht(self, hash_type=-1):
+        """the hash-type byte a signature made in a pass with this request carries (no request = SIGHASH_ALL)"""
+        ht = self.hash_type if hash_type == -1 else hash_type
+        return (ht or 1) | (0x40 if self.fork[0] in ("bch", "btg") else 0)
+
     def case(self, extra=None):
-        d = {"net": self.netcode, "coord": getattr(self, "coord", None), "puzzles": [p.brief() for p in self.puzzles], "hash_type": self.hash_type, "steps": self.log,
-             "compressed": [p.compressed for p in self.puzzles]}
+        puzzles = getattr(self, "puzzles", [])
+        d = {"net": self.netcode, "coord": getattr(self, "coord", None), "puzzles": [p.brief() for p in puzzles], "hash_type": getattr(self, "hash_type", None),
+             "steps": self.log, "compressed": [p.compressed for p in puzzles]}
         d.update(extra or {})
         return d
 
@@ -249,8 +291,11 @@ class History:
         scripts = [s for p in self.puzzles for s in p.scripts]
         return self.net.tx.solve.build_p2sh_lookup(scripts), scripts
 
-    def sign_with(self, key_indices, mechanism, idx_set=None):
-        """one signing pass supplying exactly these keys"""
+    def sign_with(self, key_indices, mechanism, idx_set=None, report_raise=True):
+        """one signing pass supplying exactly these keys. With report_raise=False an exception from the signing call is not
+        a violation by itself (the statement only says what the inputs look like afterwards): it is kept in self.last_raise
+        and the caller goes on to check the transaction."""
+        self.last_raise = None
         net, tx = self.net, self.tx
         secrets = [self.keys.d[k] for k in sorted(key_indices)]
         p2sh_lookup, scripts = self.scripts_lookup()
@@ -269,8 +314,8 @@ class History:
         elif mechanism == "wif":
             wifs = []
             for k in sorted(key_indices):
-                # a WIF carries one compression flag; supply both forms so either script form can be solved
-                wifs.append(net.keys.private(self.keys.d[k], is_compressed=True).wif())
+                # a WIF carries one compression flag, which says nothing about the form the puzzle lists the key in
+                wifs.append(net.keys.private(self.keys.d[k], is_compressed=self.rng.random() < 0.6).wif())
             st, r = observe(net.tx_utils.sign_tx, tx, wifs, p2sh_lookup=p2sh_lookup, **kwargs)
             self.rec.ev("tx_utils.sign_tx")
         elif mechanism == "keychain_hd":
@@ -308,9 +353,31 @@ class History:
             st, r = observe(tx.sign, kc, p2sh_lookup=kc, **kwargs)
             self.rec.ev("Tx.sign(keychain)")
         if st != "ok":
-            self.rec.violation("sign.raises.%s" % type(r).__name__, self.case(), r, "signing returns")
+            self.last_raise = r
+            if report_raise:
+                self.rec.violation("sign.raises.%s" % type(r).__name__, self.case(), r, "signing returns")
             return False
         return True
+
+    def apply_pass(self, key_indices, mechanism, asked, already_valid):
+        """model update for one pass: every asked, not yet valid input gains the supplied keys it lists"""
+        eff = self.effective_keys(key_indices, mechanism)
+        for i, p in enumerate(self.puzzles):
+            if i not in asked or i in already_valid:
+                continue
+            new = [pos for pos, k in enumerate(p.key_idx) if k in eff and k not in self.signed_keys[i]]
+            if new or (eff & set(p.key_idx)):
+                self.req_types[i].add(self.want_ht())
+            self.sign_seq[i].extend(new)
+            self.signed_keys[i] |= (eff & set(p.key_idx))
+
+    def signing_pass(self, before, key_indices, mechanism, asked, already_valid, what, idx_set=None):
+        """sign, update the model, check; returns the frame after the pass"""
+        ok = self.sign_with(key_indices, mechanism, idx_set=idx_set, report_raise=False)
+        self.pass_mech = mechanism
+        self.apply_pass(key_indices, mechanism, asked, already_valid)
+        after, _ = self.check_step(before, asked, already_valid, what, raised=None if ok else self.last_raise)
+        return after
 
     def effective_keys(self, key_indices, mechanism):
         """keys really available to the signer in this pass"""
@@ -348,8 +415,9 @@ class History:
         items += [bytes(w) for w in ti.witness]
         known_scripts = set(p.scripts)
         pubs = {self.keys.sec(k, c) for k, c in zip(p.key_idx, p.compressed)}
-        want_ht = (self.hash_type or 1) | (0x40 if self.fork[0] in ("bch", "btg") else 0)
-        nsig = 0
+        # the type requested in a pass that could sign this input (one value unless the request changed between passes)
+        admissible = self.req_types[i] or {self.want_ht()}
+        nsig, seen_types = 0, set()
         for it in items:
             if it in known_scripts or it in pubs or len(it) == 0:
                 continue
@@ -361,45 +429,96 @@ class History:
             rs = RS.parse_der_lax(it[:-1])
             if rs is None or rs[1] > C.n // 2 or rs[1] == 0:
                 self.rec.violation("canonical.high_s", self.case({"input": i, "sig": it}), it, "s <= n/2")
-            if it[-1] != want_ht:
-                self.rec.violation("canonical.wrong_hash_type", self.case({"input": i, "sig": it}), it[-1], want_ht)
+            if it[-1] not in admissible:
+                self.rec.violation("canonical.wrong_hash_type", self.case({"input": i, "sig": it}), it[-1], sorted(admissible))
+            else:
+                self.rec.ev("sig_type:0x%02x" % it[-1])
+                seen_types.add(it[-1])
+        if len(seen_types) > 1:
+            self.rec.ev("partial.mixed_hash_types_valid")
         need = p.m if p.m is not None else 1
         if nsig != need:
             self.rec.violation("canonical.signature_count", self.case({"input": i, "items": items}), nsig, need)
 
-    def check_step(self, before, asked, already_valid, what):
+    def check_step(self, before, asked, already_valid, what, raised=None):
         """after a signing pass: validity model, frame condition, canonical form"""
+        rec = self.rec
         after = self.frame()
         v = self.verdicts()
+        mech = getattr(self, "pass_mech", "?")
+        single_key = what.startswith("key ")
         for k in ("version", "lock_time", "outpoints", "sequences", "outs", "unspents"):
             if before[k] != after[k]:
-                self.rec.violation("frame.%s_changed" % k, self.case(), after[k], before[k])
+                rec.violation("frame.%s_changed" % k, self.case(), after[k], before[k])
+        broken_by_raise = []
         for i, p in enumerate(self.puzzles):
-            if i not in asked and before["unlock"][i] != after["unlock"][i]:
-                self.rec.violation("frame.unasked_input_changed", self.case({"input": i}), after["unlock"][i], before["unlock"][i])
-            if i in already_valid and before["unlock"][i] != after["unlock"][i]:
-                self.rec.violation("frame.valid_input_resigned", self.case({"input": i}), after["unlock"][i], before["unlock"][i])
+            if i not in asked:
+                rec.ev("frame.unasked_input_compared")
+                if before["unlock"][i] != after["unlock"][i]:
+                    rec.violation("frame.unasked_input_changed", self.case({"input": i}), after["unlock"][i], before["unlock"][i])
+            if i in already_valid:
+                rec.ev("frame.already_valid_input_compared")
+                if before["unlock"][i] != after["unlock"][i]:
+                    rec.violation("frame.valid_input_resigned", self.case({"input": i}), after["unlock"][i], before["unlock"][i])
             py_ok, ref = v[i]
             exp = self.expected_valid(i)
             kind = p.kind.replace(":", "_")
+            if exp and raised is not None and (py_ok is not True or ref != "OK"):
+                broken_by_raise.append(i)
+                continue
             if py_ok is not exp:
                 if exp:
-                    self.rec.violation("validity.signed_input_invalid.%s%s" % (kind, ".m>=9" if (p.m or 0) >= 9 else ""), self.case({"input": i, "ref": ref}), py_ok, True)
+                    rec.violation("validity.signed_input_invalid.%s%s" % (kind, ".m>=9" if (p.m or 0) >= 9 else ""), self.case({"input": i, "ref": ref}), py_ok, True)
+                elif py_ok is True:
+                    rec.violation("validity.underSigned_input_reported_valid.%s" % kind, self.case({"input": i, "ref": ref}), py_ok, False)
                 else:
-                    self.rec.violation("validity.underSigned_input_reported_valid.%s" % kind, self.case({"input": i, "ref": ref}), py_ok, False)
+                    rec.violation("validity.validation_raises.%s" % kind, self.case({"input": i, "ref": ref}), py_ok, False)
             if (ref == "OK") is not exp:
                 if exp:
-                    self.rec.violation("validity.reference_rejects_signed_input.%s.%s" % (kind, ref), self.case({"input": i}), ref, "OK")
+                    rec.violation("validity.reference_rejects_signed_input.%s.%s" % (kind, ref), self.case({"input": i}), ref, "OK")
                 else:
-                    self.rec.violation("validity.reference_accepts_undersigned_input.%s" % kind, self.case({"input": i}), ref, "not OK")
+                    rec.violation("validity.reference_accepts_undersigned_input.%s" % kind, self.case({"input": i}), ref, "not OK")
+            if not exp:
+                rec.ev("undersigned_input_checked")
+                if what == "wrong_keys":
+                    rec.ev("wrong_keys.input_checked")
+                if p.m is not None and 0 < len(self.signed_keys[i] & set(p.key_idx)) < p.m:
+                    rec.ev("partial.below_m_checked")
             if exp and py_ok is True and ref == "OK":
                 self.check_canonical(i)
-                self.rec.ev("input_validated_both")
+                rec.ev("input_validated_both")
+                # which region of the quantified-over domain this validated input belongs to
+                rec.ev("valid:" + kind)
+                rec.ev("valid:via:" + mech)
+                if not all(p.compressed):
+                    rec.ev("valid:uncompressed_key")
+                if p.m is not None:
+                    n = len(p.key_idx)
+                    if p.m >= 13:
+                        rec.ev("valid:ms.m>=13")
+                    if n == 20:
+                        rec.ev("valid:ms.n=20")
+                    if n > 4 and p.kind == "ms:bare":
+                        rec.ev("valid:ms_bare.n>4")
+                    if p.kind == "ms:p2sh" and len(p.scripts[0]) > 500:
+                        rec.ev("valid:ms_p2sh.redeem_script>500_bytes")
+                    if p.kind == "ms:p2sh" and n > 7 and not all(p.compressed):
+                        rec.ev("valid:ms_p2sh.n>7_mixed_key_forms")
+                    if i not in already_valid and p.m >= 13 and single_key:
+                        rec.ev("partial.m>=13_completed_by_last_key")
+                    if i not in already_valid and p.m >= 2 and single_key:
+                        rec.ev("partial.became_valid_at_m")
+                        if self.sign_seq[i] != sorted(self.sign_seq[i]):
+                            rec.ev("partial.valid_after_out_of_order_signing")
+        if broken_by_raise:
+            rec.violation("sign.raises.%s" % type(raised).__name__, self.case({"inputs_left_invalid": broken_by_raise}), raised, "inputs with keys supplied are valid")
+        elif raised is not None:
+            rec.ev("sign.raised_with_nothing_solvable_left")
         st, bad = observe(self.tx.bad_solution_count, flags=self.flags)
         want_bad = sum(0 if self.expected_valid(i) else 1 for i in range(len(self.puzzles)))
-        self.rec.ev("Tx.bad_solution_count")
-        if st != "ok" or bad != want_bad:
-            self.rec.violation("validity.bad_solution_count", self.case(), bad, want_bad)
+        rec.ev("Tx.bad_solution_count")
+        if (st != "ok" or bad != want_bad) and not broken_by_raise:
+            rec.violation("validity.bad_solution_count", self.case(), bad, want_bad)
         return after, v
 
     # -- scenarios --------------------------------------------------------------------------------------
@@ -411,85 +530,103 @@ class History:
         if mech == "keychain_hd":
             self.keys = hd_universe(self.net, self.netcode)
         self.build()
-        uncompressed_needed = any(not c for p in self.puzzles for c in p.compressed)
-        if mech == "keychain" and False:
-            pass
         scenario = rng.choice(["all", "all", "two_pass", "idx_set", "one_key_at_a_time", "wrong_keys", "resign_after_edit"])
         self.scenario = scenario + "/" + mech
         n = len(self.puzzles)
+        everything = set(range(n))
         before = self.frame()
+        # the requested hash type may change from one pass to the next (a cosigner signs with SIGHASH_ALL, the next one with
+        # NONE|ANYONECANPAY ...): signatures already in place keep their own type
+        retype = rng.random() < 0.35
+
+        def next_type():
+            if retype:
+                base = rng.choice([None, 1, 2, 3, 0x81, 0x82, 0x83])
+                if base is not None and self.fork[0] in ("bch", "btg") and rng.random() < 0.3:
+                    base |= 0x40
+                self.hash_type = base
+                self.log.append({"hash_type": base})
+
+        def valid_now():
+            return {i for i in range(n) if self.expected_valid(i)}
+
         if scenario == "all":
-            keys = {k for p in self.puzzles for k in p.key_idx[:p.m] if p.m is not None} | {k for p in self.puzzles if p.m is None for k in p.key_idx}
             # sign multisig with a chosen m-subset rather than the first m keys
             keys = set()
-            chosen = []
             for p in self.puzzles:
-                sub = sorted(rng.sample(p.key_idx, p.m)) if p.m is not None else list(p.key_idx)
-                chosen.append(set(sub))
-                keys |= set(sub)
-            if self.sign_with(keys, mech):
-                eff = self.effective_keys(keys, mech)
-                for i, p in enumerate(self.puzzles):
-                    self.signed_keys[i] |= (eff & set(p.key_idx))
-                self.check_step(before, set(range(n)), set(), "all")
+                keys |= set(rng.sample(p.key_idx, p.m)) if p.m is not None else set(p.key_idx)
+            self.signing_pass(before, keys, mech, everything, set(), "all")
         elif scenario == "two_pass":
             first = set(rng.sample(range(n), max(1, n // 2)))
             k1 = {k for i in first for k in self.puzzles[i].key_idx}
-            if self.sign_with(k1, mech):
-                eff = self.effective_keys(k1, mech)
-                for i, p in enumerate(self.puzzles):
-                    self.signed_keys[i] |= (eff & set(p.key_idx))
-                mid, _ = self.check_step(before, set(range(n)), set(), "pass1")
-                valid_now = {i for i in range(n) if self.expected_valid(i)}
-                k2 = {k for p in self.puzzles for k in p.key_idx}
-                if self.sign_with(k2, mech):
-                    for i, p in enumerate(self.puzzles):
-                        self.signed_keys[i] |= set(p.key_idx)
-                    self.check_step(mid, set(range(n)), valid_now, "pass2")
+            mid = self.signing_pass(before, k1, mech, everything, set(), "pass1")
+            next_type()
+            k2 = {k for p in self.puzzles for k in p.key_idx}
+            self.signing_pass(mid, k2, mech, everything, valid_now(), "pass2")
         elif scenario == "idx_set":
             asked = set(rng.sample(range(n), rng.randrange(0, n + 1)))
             keys = {k for p in self.puzzles for k in p.key_idx}
-            if self.sign_with(keys, mech, idx_set=asked):
-                for i in asked:
-                    self.signed_keys[i] |= set(self.puzzles[i].key_idx)
-                self.check_step(before, asked, set(), "idx_set")
+            self.signing_pass(before, keys, mech, asked, set(), "idx_set", idx_set=asked)
         elif scenario == "one_key_at_a_time":
-            # every listed key of every input, one pass per key, in a random order; stop adding once all are valid
+            # every listed key of every input, one pass per key, in a random order (ten single-key passes at most - four when a
+            # large multisig is present, whose half-signed states are slow to validate; whatever is still missing then arrives
+            # in one closing pass, so that large m also complete by partial signing)
             order = sorted({k for p in self.puzzles for k in p.key_idx})
             rng.shuffle(order)
             cur = before
-            for k in order[:10]:
-                valid_now = {i for i in range(n) if self.expected_valid(i)}
-                if not self.sign_with({k}, mech):
-                    break
-                eff = self.effective_keys({k}, mech)
+            singles = 10 if all((p.m or 1) <= 6 for p in self.puzzles) else 4
+            if singles == 4:
+                # the few single-key passes go to the largest multisig first
+                big = max(self.puzzles, key=lambda p: p.m or 0)
+                order.sort(key=lambda k: k not in big.key_idx)
+            for k in order[:singles]:
+                done = len(valid_now()) == n
+                cur = self.signing_pass(cur, {k}, mech, everything, valid_now(), "key %d" % k)
+                next_type()
+                if done:
+                    break       # one more key offered to a complete transaction (nothing may change), then stop
+            if len(valid_now()) < n:
+                # exactly the missing number of further listed keys for every input still short of m: a signature lost from
+                # the half-signed input would leave it short
+                rest = set()
                 for i, p in enumerate(self.puzzles):
-                    if i not in valid_now:
-                        self.signed_keys[i] |= (eff & set(p.key_idx))
-                cur, _ = self.check_step(cur, set(range(n)), valid_now, "key %d" % k)
+                    have = self.signed_keys[i] & set(p.key_idx)
+                    short = (p.m or 1) - len(have | (rest & set(p.key_idx)))
+                    if short > 0:
+                        rest |= set(rng.sample(sorted(set(p.key_idx) - have - rest), short))
+                last = sorted(rest & set(big.key_idx))[-1:] if singles == 4 else []
+                if last and len(rest) > 1:
+                    # the large multisig gets its final key in a pass of its own: m - 1 signatures already in place are re-used
+                    cur = self.signing_pass(cur, rest - set(last), mech, everything, valid_now(), "closing pass")
+                    next_type()
+                    self.signing_pass(cur, set(last), mech, everything, valid_now(), "key %d (last)" % last[0])
+                else:
+                    self.signing_pass(cur, rest, mech, everything, valid_now(), "closing pass")
         elif scenario == "resign_after_edit":
             # sign everything, then the caller edits the transaction (stale signatures stay in place) and signs again
             keys = {k for p in self.puzzles for k in p.key_idx}
-            if self.sign_with(keys, mech):
-                eff = self.effective_keys(keys, mech)
-                for i, p in enumerate(self.puzzles):
-                    self.signed_keys[i] |= (eff & set(p.key_idx))
-                mid, _ = self.check_step(before, set(range(n)), set(), "first")
-                edit = rng.choice(["out_value", "lock_time", "add_output", "sequence"])
-                if edit == "out_value":
-                    self.tx.txs_out[0].coin_value += 1
-                elif edit == "lock_time":
-                    self.tx.lock_time += 1
-                elif edit == "add_output":
-                    self.tx.txs_out.append(self.net.tx.TxOut(3, b"\x51"))
-                else:
-                    self.tx.txs_in[-1].sequence ^= 2
-                self.log.append({"edit": edit})
-                still_valid = {i for i in range(n) if self.tx.is_solution_ok(i, flags=self.flags)}
-                self.rec.ev("resign.inputs_invalidated_by_edit", n - len(still_valid))
-                mid2 = self.frame()
-                if self.sign_with(keys, mech):
-                    self.check_step(mid2, set(range(n)), still_valid, "resign")
+            self.signing_pass(before, keys, mech, everything, set(), "first")
+            edit = rng.choice(["out_value", "lock_time", "add_output", "sequence"])
+            if edit == "out_value":
+                self.tx.txs_out[0].coin_value += 1
+            elif edit == "lock_time":
+                self.tx.lock_time += 1
+            elif edit == "add_output":
+                self.tx.txs_out.append(self.net.tx.TxOut(3, b"\x51"))
+            else:
+                self.tx.txs_in[-1].sequence ^= 2
+            self.log.append({"edit": edit})
+            # which signatures the edit left standing is decided by the reference interpreter, not by the library under test
+            ref_tx = self.as_ref_tx()
+            still_valid = {i for i in range(n) if self.ref_verdict(i, ref_tx) == "OK"}
+            self.rec.ev("resign.inputs_invalidated_by_edit", n - len(still_valid))
+            next_type()
+            mid2 = self.frame()
+            for i in everything - still_valid:
+                # stale signatures are replaced: the input is signed afresh in this pass
+                self.req_types[i] = set()
+                self.signed_keys[i] = set()
+            self.signing_pass(mid2, keys, mech, everything, still_valid, "resign")
         else:   # wrong_keys: keys that are not listed, or too few
             listed = {k for p in self.puzzles for k in p.key_idx}
             others = [k for k in range(len(self.keys.d)) if k not in listed]
@@ -497,13 +634,9 @@ class History:
             for p in self.puzzles:
                 if p.m is not None and p.m > 1:
                     supply |= set(rng.sample(p.key_idx, p.m - 1))       # too few
-            if self.sign_with(supply, mech):
-                eff = self.effective_keys(supply, mech)
-                for i, p in enumerate(self.puzzles):
-                    self.signed_keys[i] |= (eff & set(p.key_idx))
-                self.check_step(before, set(range(n)), set(), "wrong_keys")
+            self.signing_pass(before, supply, mech, everything, set(), "wrong_keys")
         kinds = tuple(sorted(p.brief() for p in self.puzzles))
-        self.rec.case((self.netcode, kinds, tuple(tuple(p.compressed) for p in self.puzzles), self.hash_type, self.scenario, tuple(tuple(s.get("keys") or [s.get("edit")]) for s in self.log)))
+        self.rec.case((self.netcode, kinds, tuple(tuple(p.compressed) for p in self.puzzles), self.hash_type, self.scenario, tuple(tuple(s.get("keys") or [s.get("edit"), s.get("hash_type")]) for s in self.log)))
         self.rec.ev("scenario:" + scenario)
         self.rec.ev("net:" + self.netcode)
 
@@ -524,14 +657,53 @@ def networks_for_slot(slot):
     return CORE_NETS[slot % len(CORE_NETS)], others[slot % len(others)], others[(slot * 7 + 3) % len(others)]
 
 
+HASH_TYPE_BYTES = [0x01, 0x02, 0x03, 0x81, 0x82, 0x83, 0x41, 0x42, 0x43, 0xc1, 0xc2, 0xc3]
+REQUIRED = (
+    # observation points the statement names
+    ["Tx.is_solution_ok", "Tx.bad_solution_count", "input_validated_both", "signature_inspected"]
+    # every puzzle kind, validated by pycoin and by the reference after signing
+    + ["valid:" + k for k in ("p2pk", "p2pkh", "p2wpkh", "p2sh-p2wpkh", "ms_bare", "ms_p2sh", "ms_p2wsh", "ms_p2sh-p2wsh")]
+    # every key-supply mechanism, as the source of a validated input
+    + ["valid:via:" + m for m in ("dict", "wif", "keychain", "keychain_hd")]
+    # key forms and the m-of-n range
+    + ["valid:uncompressed_key", "valid:ms.m>=13", "valid:ms.n=20", "valid:ms_bare.n>4", "valid:ms_p2sh.redeem_script>500_bytes",
+       "valid:ms_p2sh.n>7_mixed_key_forms"]
+    # every hash type, on the coins without and with a fork id, read off an inspected signature
+    + ["sig_type:0x%02x" % t for t in HASH_TYPE_BYTES]
+    # partial signing: below m, reaching m one key at a time, out of script order, with the request changing between passes
+    + ["partial.below_m_checked", "partial.became_valid_at_m", "partial.m>=13_completed_by_last_key", "partial.valid_after_out_of_order_signing", "partial.mixed_hash_types_valid"]
+    # too few / wrong keys; frame condition on inputs not asked for and on inputs already valid
+    + ["undersigned_input_checked", "wrong_keys.input_checked", "frame.unasked_input_compared", "frame.already_valid_input_compared",
+       "resign.inputs_invalidated_by_edit"]
+    + ["scenario:" + s for s in ("all", "two_pass", "idx_set", "one_key_at_a_time", "wrong_keys", "resign_after_edit")]
+)
+
+
+def nets_for_shard(slot, seed, n):
+    """six of eight histories on one core network; the other two walk through ALL other registered networks, shard after
+    shard, so that a run of 16 shards x 80 histories visits every supported coin"""
+    from pycoin.networks.registry import network_codes
+    others = [c for c in sorted(network_codes()) if c not in CORE_NETS]
+    core = CORE_NETS[(slot + seed) % len(CORE_NETS)]
+    per_shard = 2 * ((n + 7) // 8)
+    out = []
+    for k in range(n):
+        if k % 8 < 6:
+            out.append(core)
+        else:
+            j = (k // 8) * 2 + (k % 8 - 6)
+            out.append(others[((slot + seed) * per_shard + j) % len(others)])
+    return out
+
+
 def run_shard(spec, rec):
-    from pycoin.networks.registry import network_for_netcode
-    rec.require("Tx.is_solution_ok", "input_validated_both")
+    from pycoin.networks.registry import network_for_netcode, network_codes
+    rec.require(*REQUIRED)
+    rec.require(*["net:" + c for c in network_codes()])
     keys = G.Keys(24)
-    core, o1, o2 = networks_for_slot(spec["slot"] + spec["seed"])
-    plan_nets = [core] * 6 + [o1, o2]
+    plan_nets = nets_for_shard(spec["slot"], spec["seed"], spec["n"])
     for k in range(spec["n"]):
-        code = plan_nets[k % len(plan_nets)]
+        code = plan_nets[k]
         net = network_for_netcode(code)
         # every history has its own generator, so a stored case can be re-run exactly from its coordinates
         rng = shard_rng(spec["seed"], PROPERTY, spec["tier"], spec["shard"], salt=k)
